@@ -13,6 +13,7 @@ import (
 	"strconv"
 	"strings"
 	"sync"
+	"syscall"
 	"time"
 
 	"verif/internal/gorun"
@@ -63,10 +64,53 @@ func fail2(format string, a ...any) {
 	os.Exit(2)
 }
 
+// cacheHygiene empties the machinery's Go build cache when it has grown beyond a bound, unless another
+// driver is running (each driver holds a shared lock for its lifetime), and keeps the shared lock.
+func cacheHygiene() {
+	dir := gorun.CacheDir()
+	os.MkdirAll(dir, 0o755)
+	lf, err := os.OpenFile(dir+".lock", os.O_CREATE|os.O_RDWR, 0o644)
+	if err != nil {
+		return
+	}
+	// lf stays open (and locked) until the process exits
+	if syscall.Flock(int(lf.Fd()), syscall.LOCK_EX|syscall.LOCK_NB) == nil {
+		limit := int64(12) << 30
+		if v := os.Getenv("VERIF_GOCACHE_LIMIT_GB"); v != "" {
+			if n, err := strconv.ParseInt(v, 10, 64); err == nil {
+				limit = n << 30
+			}
+		}
+		// the cache has 256 subdirectories of similar size: four of them are measured
+		var sample int64
+		for _, sd := range []string{"00", "55", "aa", "ff"} {
+			filepath.Walk(filepath.Join(dir, sd), func(_ string, info os.FileInfo, err error) error {
+				if err == nil && !info.IsDir() {
+					sample += info.Size()
+				}
+				return nil
+			})
+		}
+		if sample*64 > limit {
+			old := fmt.Sprintf("%s.old-%d", dir, os.Getpid())
+			if os.Rename(dir, old) == nil {
+				os.MkdirAll(dir, 0o755)
+				os.RemoveAll(old)
+				fmt.Printf("note: build cache %s was above %d GB and has been emptied\n", dir, limit>>30)
+			}
+		}
+	}
+	syscall.Flock(int(lf.Fd()), syscall.LOCK_SH)
+	cacheLock = lf
+}
+
+var cacheLock *os.File
+
 func main() {
 	if len(os.Args) < 3 {
 		usage()
 	}
+	cacheHygiene()
 	if os.Args[1] == "replay" {
 		replay(os.Args[2])
 		return
@@ -169,6 +213,9 @@ func main() {
 	regressInconclusive := false
 	{
 		dirs, _ := filepath.Glob(filepath.Join(verif, "regress", id, "*", "replay.json"))
+		if os.Getenv("VERIF_NO_REGRESS") != "" {
+			dirs = nil // development aid: judge the generated search alone
+		}
 		for i := range dirs {
 			dirs[i] = filepath.Dir(dirs[i])
 		}
